@@ -62,6 +62,24 @@ CHECKS = {
         "implementation's couplings after capacitance scaling is a theorem about the re-translated kernels. The predicates are evaluated "
         "on the implementation's one-step outputs for dt in {1e-3..1e9}, all backends, all ordered pairs (i,j) of small cells.",
    note=TRUST + "The transport of the theorems to the implementation's matrix rests on C01's correspondence. Rounding: 1e-9 relative slack."),
+ "C12": dict(cat="proof", ref="DESIGN.md §4 C12",
+   technique="Lean 4: block-diagonal independence and permutation equivariance via uniqueness of the cable system; table-concatenation model; implementation tables and full runs",
+   text="Theorems: in a system without cross coupling the restriction of the joint solution to a cell is the cell's own solution "
+        "(any two finite node sets); re-ordering nodes permutes rows and solution and nothing else; concatenating constituent tables "
+        "keeps every row under contiguous indices. The implementation is checked on random heterogeneous compartments -> branches -> "
+        "cells -> networks: every constituent row's parameters/states/channel flags survive, absent channels stay absent; a synapse-free "
+        "network simulates each cell as alone, one-branch cell = branch, one-compartment branch = compartment; sibling/cell permutations "
+        "permute results; all accepting backends.",
+   note=TRUST + "Mechanisms act row-wise by construction of the generated kernels; whole-run equality is measured (1e-8 relative). "
+        "Refusals of the jaxley backends for networks of differently shaped cells are allowed."),
+ "C15": dict(cat="other", ref="DESIGN.md §4 C15",
+   technique="Lean 4 theorems on amplification factors, order bounds and discrete eigenmodes + measured refinement ladders on the real code",
+   text="Proved: steady state of one compartment under constant current (fixes units), exact amplification factors of backward Euler and "
+        "Crank-Nicolson, local errors O(h^2)/O(h^3) against exp(-h), global first/second order bounds, cosine modes are eigenvectors of "
+        "the sealed compartmental axial operator for every N with second-order accurate eigenvalues. Measured on every run: ladders "
+        "dt0/2^k and ncomp n0*2^k on the real code (all backends) against RC relaxation and the sealed-cable Green's function; observed "
+        "orders must be 1/2/2 and time errors below the proved bounds.",
+   note=TRUST + "A limit statement for arbitrary (non-uniform, branched) geometries is not proved; the ladders are finite. Partial."),
 }
 
 def main():
